@@ -450,6 +450,16 @@ opcode_arg_fmt = opcode_312.opcode_arg_fmt312.copy()
 opcode_extended_fmt = opcode_312.opcode_extended_fmt312.copy()
 for fmt_table in (opcode_arg_fmt, opcode_extended_fmt):
     fmt_table.pop("MAKE_FUNCTION")  # MAKE_FUNCTION formatting not in 3.13
+
+# 3.13 (PEP 696) adds one more two-argument intrinsic function
+_intrinsic_2_descs = opcode_312._intrinsic_2_descs + ["INTRINSIC_SET_TYPEPARAM_DEFAULT"]
+
+
+def format_CALL_INTRINSIC_2(arg) -> str:
+    return _intrinsic_2_descs[arg]
+
+
+opcode_arg_fmt["CALL_INTRINSIC_2"] = format_CALL_INTRINSIC_2
 opcode_arg_fmt313 = opcode_arg_fmt
 opcode_extended_fmt313 = opcode_extended_fmt
 
